@@ -10,6 +10,16 @@ except Exception:
     pass
 
 CHECKS = {
+ "C04": dict(
+   text="Every token sequence up to length 3 over a 52-token alphabet (length 4 over 32/48 tokens, length 5 over 24 thorough), every byte string up to length 2 over all 256 bytes (3 thorough) and up to 4/5 over 16 hostile bytes, the complete 1-edit neighbourhood (delete / insert / replace by every alphabet token) of a 71-program corpus covering every production, and boundary-size programs (globals, locals, params, captured variables, literals, constants, selector chains, nesting depth 100..10000) are fed to parser.ParseFile, Compiler.Compile(+Bytecode+RemoveDuplicates) and Script.Compile under the product of module configurations (none, stdlib, source modules incl. the input as a module body, custom Importables) and pre-declared variables. Oracle: returns value or error, no panic, terminates (CPU-time watchdog in worker subprocesses, confirmed alone before reporting), every reported position inside the offending input with consistent line/column.",
+   note="Trusted: the position conventions read off parser/source_file.go. Execution of compiled code is other properties' subject. Nesting beyond depth 10000 (unbounded recursion of the recursive-descent parser/compiler) is outside the bound.",
+   technique="bounded exhaustive enumeration of token sequences, byte strings and 1-edit neighbourhoods x configurations with a totality oracle, in isolated worker processes",
+   design="4/C04"),
+ "C06": dict(
+   text="(a) for every terminating program of the stmt/func/builtin families (65k quick) the run is repeated for EVERY allocation budget N = 0..K and unlimited: there must be a threshold T with the allocation-limit error below it and the unlimited result from it on (monotone, right error identity), and T must equal the number of counter decrements observed through the VM probe in the unlimited run. (b) for six (MaxStringLen, MaxBytesLen) settings every string/bytes-producing operation of the core language (about 130: + on all type pairs, conversions, format verbs/width/precision/*, type_name, slices, literals, host inputs, compound assignment, values built inside functions) with operand lengths placing the result at L-1, L, L+1: no over-long String/Bytes reachable from the globals, limit error exactly when the true length exceeds the limit. (c) non-tail/mutual/closure/method recursion x params x locals x depths around both capacities: value when both capacities suffice, an error otherwise, ErrStackOverflow when frames run out first (slots per frame from engine/bcv), bounded heap growth at depth 1e5.",
+   note="Trusted: the probe-based allocation count, the true result length taken from the unlimited run, engine/bcv slot computation. stdlib modules are outside 'core language'.",
+   technique="bounded exhaustive enumeration of programs x limit configurations (all budgets 0..K per program) against monotonicity/threshold and length oracles",
+   design="4/C06"),
  "C07": dict(
    text="Stateful model checking of the real Compiled.RunContext / VM.run code: cmd/instr mechanically rewrites the current sources so that every mutex operation, atomic access of the abort flag (one per dispatched instruction), goroutine spawn, channel send/receive and select is a scheduling point of a controlled scheduler (engine/vsched); ALL interleavings of caller (RunContext(ctx); Set; RunContext; Get), the spawned VM goroutine(s) and a canceller calling cancel() at an arbitrary instant are explored by DFS with replay and a visited set over global state keys (scheduler state + caller observations + VM registers/frames/stack/globals) for six finite-state driver scripts (infinite loop, unbounded self tail recursion, nested loops, terminating, native call, run-time error). Invariants in every state (return value legal, at most one instruction dispatched after the abort store, VM goroutine terminated and lock free when the call returns), terminal checks (object reusable with correct results), deadlock detection and fair-cycle (livelock) analysis on the explored state graph.",
    note="Trusted: the rewriting rules of cmd/instr and the scheduler's model of sync/atomic/channels/select (code between two scheduling points runs atomically; races are C08's subject); the state key. Bounded delay is decided in VM steps, not wall-clock time; a long native call is outside the bound as the property says. If cmd/instr meets a construct it cannot model the check reports exhaustive:false and no verdict.",
